@@ -51,28 +51,7 @@ def _solver_check(pc, goal, timeout_ms):
     return s, str(r), ms
 
 
-def _cli_check(smt2: str, tool: str, timeout_s: int):
-    with tempfile.NamedTemporaryFile("w", suffix=".smt2", delete=False) as f:
-        f.write(smt2)
-        path = f.name
-    try:
-        if tool == "cvc5":
-            cmd = ["/usr/bin/cvc5", "--strings-exp", f"--tlimit={timeout_s * 1000}", path]
-        else:
-            cmd = ["/usr/bin/z3", f"-T:{timeout_s}", path]
-        t0 = time.time()
-        try:
-            p = subprocess.run(cmd, capture_output=True, text=True, timeout=timeout_s + 5)
-            out = p.stdout.strip().splitlines()
-            res = out[0].strip() if out else "unknown"
-        except subprocess.TimeoutExpired:
-            res = "unknown"
-        ms = (time.time() - t0) * 1000
-        if res not in ("sat", "unsat"):
-            res = "unknown"
-        return res, ms
-    finally:
-        os.unlink(path)
+from .solve import _cli_check
 
 
 def discharge(ob: Obligation, tier: str):
@@ -82,7 +61,16 @@ def discharge(ob: Obligation, tier: str):
     accepted on its own word."""
     timeout = 10000 if tier == "quick" else 60000
     cli_t = 10 if tier == "quick" else 40
-    s, r, ms = _solver_check(ob.pc, ob.goal, timeout)
+    if ob.kind == "prune":
+        # the in-process solver already answered `unsat` when the path was pruned; only the second
+        # opinions are asked here (a `sat` from one of them is a disagreement = checker error)
+        s = z3.Solver()
+        for f in ob.pc:
+            s.add(f)
+        s.add(z3.Not(ob.goal))
+        r, ms = "unsat", 0.0
+    else:
+        s, r, ms = _solver_check(ob.pc, ob.goal, timeout)
     ob.ms = ms
     ob.backend = "z3-5.1.0(api)"
     ob.confirmed = None
